@@ -172,7 +172,7 @@ struct Case
 
 static std::string describeCase(const Case &c, long idx)
 {
-  std::string s = "#" + std::to_string(idx) + " script=" + (c.mode == 3 ? "(SWFTg)x" + std::to_string(c.script.size() / 5) : c.script) + " launch=" + (c.launch == AsyncLoop::THREAD ? "THREAD" : "TASK") +
+  std::string s = "#" + std::to_string(idx) + " script=" + (c.mode == 3 ? (c.script.compare(0, 2, "SW") == 0 && c.script[2] == 'F' ? "(SWFTg)x2000" : "S(W[F]TS)x2000") : c.script) + " launch=" + (c.launch == AsyncLoop::THREAD ? "THREAD" : "TASK") +
                   " bodyUs=" + std::to_string(c.bodyUs);
   if (c.mode == 0)
     s += std::string(" directed: pause at ") + kPoints[c.P] + " (arrival " + std::to_string(c.k) + ") until " + kPoints[c.Q];
@@ -201,6 +201,7 @@ struct RunResult
 {
   bool r2Timeout;
   bool overflow;
+  bool lostWakeupWitnessed;
 };
 
 static uint32_t g_scriptCounter = 0;
@@ -210,6 +211,7 @@ static RunResult runScript(const Case &c, long idx, bool judge)
   RunResult rr;
   rr.r2Timeout = false;
   rr.overflow  = false;
+  rr.lostWakeupWitnessed = false;
   uint32_t script = ++g_scriptCounter;
   g_seq.store(0);
   g_lastBodyEnterSeq.store(0);
@@ -297,6 +299,28 @@ static RunResult runScript(const Case &c, long idx, bool judge)
       }
       if (!rr.r2Timeout)
         vh::count("r2_body_after_start_observed");
+      else {
+        // Logical witness for a lost wake-up (as opposed to a stalled machine): the loop
+        // thread did nothing for 5 s although start() had returned, yet it responds at once
+        // to a fresh stop()+start().  A starved thread would not.
+        long before = g_bodyCount.load(std::memory_order_relaxed);
+        al->stop();
+        al->start();
+        double p0 = vh::now();
+        while (g_bodyCount.load(std::memory_order_relaxed) == before && vh::now() - p0 < 1.0)
+          sleepUs(50);
+        double took = vh::now() - p0;
+        if (g_bodyCount.load(std::memory_order_relaxed) != before) {
+          rr.lostWakeupWitnessed = true;
+          char b[64];
+          snprintf(b, sizeof b, "%.1f", took * 1000.0);
+          vh::violation("C03:R2:lost-wakeup-after-start-returned",
+                        std::string("no body began within 5 s after start() returned (step ") + std::to_string(i) + " of the script), but the loop thread ran a body " + b +
+                            " ms after a fresh stop()+start(): it was asleep although the loop was started",
+                        ctx);
+        }
+        break;  // the rest of the script is skipped
+      }
     } else if (op == 'D') {
       break;
     }
@@ -507,13 +531,20 @@ static void buildCases(bool tsan, bool taskOk, bool threadOk)
   // installed; decides what no interleaving of hook points can show (hardware store->load
   // reordering between the loop thread's flag store and flag load)
   {
-    long nRaw = vh::tier(60, 1500);
+    long nRaw = vh::tier(80, 1500);
     for (long i = 0; i < nRaw; ++i) {
       Case c;
       int cycles = 2000;
       c.script.reserve((size_t)cycles * 5);
-      for (int j = 0; j < cycles; ++j)
-        c.script += "SWFTg";
+      if (i % 2 == 0)
+        for (int j = 0; j < cycles; ++j)
+          c.script += "SWFTg";
+      else {
+        // stop() immediately followed by start(): the loop thread is on its way into the wait
+        c.script += "S";
+        for (int j = 0; j < cycles; ++j)
+          c.script += (j % 3 == 0) ? "WFTS" : "WTS";
+      }
       c.launch        = launches[i % launches.size()];
       c.bodyUs        = -(int)r.pick(std::vector<int>{200, 400, 400, 1000});
       c.mode          = 3;
@@ -564,16 +595,16 @@ int main(int argc, char **argv)
     }
     const Case &c = g_cases[k];
     RunResult rr  = runScript(c, k, !tsan);
-    if (rr.r2Timeout) {
+    if (rr.r2Timeout && !rr.lostWakeupWitnessed) {
       // bounded liveness: a watchdog expiry alone is inconclusive -> re-run the same schedule once
       RunResult r2 = runScript(c, k, true);
-      if (r2.r2Timeout) {
+      if (r2.r2Timeout && !r2.lostWakeupWitnessed) {
         uint32_t n = g_seq.load() < LOGCAP ? g_seq.load() : LOGCAP;
         vh::violation("C03:R2:no-body-after-start-returned",
                       "no body began within 5 s after start() returned, twice in a row on the same schedule; log tail: " +
                           dumpLog(n, g_scriptCounter, n > 15 ? n - 15 : 0),
                       describeCase(c, k));
-      } else
+      } else if (!r2.r2Timeout)
         vh::inconclusive("R2 watchdog expired once and not on the re-run: " + describeCase(c, k));
     }
     uint64_t h = vh::hashStr(c.script, 31);
